@@ -2,36 +2,29 @@
 #include "contracts/encoding.h"
 #include "source/encoding.c"
 
-#define GHOSTS()                                                                                                       \
-    do {                                                                                                               \
-        g_on = true;                                                                                                   \
-        g_k = nondet_size_t();                                                                                         \
-        g_old = nondet_u8();                                                                                           \
-        g_j = nondet_size_t();                                                                                         \
-        g_src = nondet_u8();                                                                                           \
-        g_blk = nondet_size_t();                                                                                       \
-        g_sub = nondet_size_t();                                                                                       \
-        g_out = nondet_size_t();                                                                                       \
-        g_outv = nondet_u8();                                                                                          \
-    } while (0)
+#define GHOSTS() GHOSTS_ENC()
 
 /* ------------------------------------------------------------------ length prediction */
 void h_hex_encoded_len(void) {
+    GHOST_RESET_ENC();
     size_t n; size_t *out;
     int r = aws_hex_compute_encoded_len(n, out);
     if (r == 0) CANARY("fits"); else CANARY("overflow");
 }
 void h_hex_decoded_len(void) {
+    GHOST_RESET_ENC();
     size_t n; size_t *out;
     int r = aws_hex_compute_decoded_len(n, out);
     if (r == 0) { if (n & 1) CANARY("odd"); else CANARY("even"); } else CANARY("overflow");
 }
 void h_b64_encoded_len(void) {
+    GHOST_RESET_ENC();
     size_t n; size_t *out;
     int r = aws_base64_compute_encoded_len(n, out);
     if (r == 0) CANARY("fits"); else CANARY("overflow");
 }
 void h_b64_decoded_len(void) {
+    GHOST_RESET_ENC();
     const struct aws_byte_cursor *c; size_t *out;
     int r = aws_base64_compute_decoded_len(c, out);
     /* the parameters live in objects created by the requires clauses, the harness cannot look at them */
@@ -40,11 +33,13 @@ void h_b64_decoded_len(void) {
 
 /* ------------------------------------------------------------------ per-character decoders */
 void h_hex_char(void) {
+    GHOST_RESET_ENC();
     char c; uint8_t *v;
     int r = s_hex_decode_char_to_int(c, v);
     if (r == 0) CANARY("digit"); else CANARY("rejected");
 }
 void h_b64_char(void) {
+    GHOST_RESET_ENC();
     unsigned char c; uint8_t *v; int8_t allow;
     int r = s_base64_get_decoded_value(c, v, allow);
     if (r == 0) { if (c == '=') CANARY("padding accepted"); else CANARY("alphabet"); } else if (c == '=') CANARY("padding rejected"); else CANARY("rejected");
@@ -52,6 +47,7 @@ void h_b64_char(void) {
 
 /* ------------------------------------------------------------------ the encoding tables against the RFC 4648 alphabets (all values) */
 void h_tables(void) {
+    GHOST_RESET_ENC();
     uint8_t v = nondet_u8();
     uint8_t c = nondet_u8();
     __CPROVER_assert(sizeof(BASE64_ENCODING_TABLE) == 65, "base64 encoding table has 64 entries (+NUL)");
@@ -80,4 +76,18 @@ void h_b64_encode(void) {
     GHOSTS();
     int r = aws_base64_encode(in, out);
     if (r == 0) CANARY("encoded"); else CANARY("refused");
+}
+
+/* ------------------------------------------------------------------ decoders */
+void h_hex_decode(void) {
+    const struct aws_byte_cursor *in; struct aws_byte_buf *out;
+    GHOSTS();
+    int r = aws_hex_decode(in, out);
+    if (r == 0) CANARY("decoded"); else CANARY("refused");
+}
+void h_b64_decode(void) {
+    const struct aws_byte_cursor *in; struct aws_byte_buf *out;
+    GHOSTS();
+    int r = aws_base64_decode(in, out);
+    if (r == 0) CANARY("decoded"); else CANARY("refused");
 }
